@@ -305,13 +305,37 @@ theorem conc_stopped_closed (ops : List COp) (a : Nat) (h : (crun cinit ops).t.s
   rw [hd] at hm
   exact ⟨hd, hm.2.1, hm.2.2⟩
 
-/-- (6) a draining / stopping / stopped actor gains neither a child nor a supervisor in any step of any
-thread, in every reachable state -/
+/-- (6) in every reachable state, in any step of any thread: an actor that is draining, stopping or stopped
+gains no child; it gains no supervisor either — with the one exception the code makes since the fix of F9:
+the link `start` makes for the actor it starts (`link_starting`) accepts a child that a `drain()` during
+`pre_start` lifted to `Draining`.  A `Stopping` / `Stopped` actor gains no supervisor under any step. -/
 theorem conc_no_gain (ops : List COp) (op : COp) (z : Nat)
     (hz : Status.draining.toNat ≤ ((crun cinit ops).t.status z).toNat) :
     (∀ x, child (cstep (crun cinit ops) op).t z x → child (crun cinit ops).t z x) ∧
-    (∀ q, (cstep (crun cinit ops) op).t.sup z = some q → (crun cinit ops).t.sup z = some q) :=
+    ((Status.stopping.toNat ≤ ((crun cinit ops).t.status z).toNat ∨ ∀ p, op ≠ .linkStart z p) →
+      ∀ q, (cstep (crun cinit ops) op).t.sup z = some q → (crun cinit ops).t.sup z = some q) :=
   Tree.conc_no_gain (conc_invariant ops) op z hz
+
+/-- the link `start` makes (`SupervisionTree::link_starting`): (a) refused, changing nothing, iff the child
+is at least `Stopping`, the supervisor at least `Draining`, or the supervisor's set closed; (b) accepted only
+below those limits, into an open set, and the child is then linked; (c) it keeps the structural invariant;
+(d) for a child below `Draining` it IS the public `link`. -/
+theorem start_link_gate (s : State) (c p : Nat) :
+    ((¬ gateB Status.stopping.toNat s c p ∨ s.kids p = none) → linkStart s c p = (s, false)) ∧
+    ((linkStart s c p).2 = true →
+      gateB Status.stopping.toNat s c p ∧ (∃ ks, s.kids p = some ks) ∧ (linkStart s c p).1.sup c = some p) ∧
+    (Inv s → Inv (linkStart s c p).1) ∧
+    ((s.status c).toNat < Status.draining.toNat → linkStart s c p = link s c p) :=
+  ⟨linkB_refused, linkB_true, fun h => h.linkStart c p, linkStart_eq_link⟩
+
+/-- the supervisor side of the start link is the same gate: a draining / stopping / stopped actor gains no
+child through it; and a child that is `Stopping` / `Stopped` gains no supervisor through it -/
+theorem start_link_no_gain {s : State} (h : Inv s) (c p z : Nat)
+    (hz : Status.draining.toNat ≤ (s.status z).toNat) :
+    (∀ x, child (linkStart s c p).1 z x → child s z x) ∧
+    ((Status.stopping.toNat ≤ (s.status z).toNat ∨ z ≠ c) →
+      ∀ q, (linkStart s c p).1.sup z = some q → s.sup z = some q) :=
+  linkB_no_gain h c p z hz
 
 /-- being on the way out is stable: whatever anybody does -/
 theorem exiting_is_stable (ops more : List COp) (x : Nat) (h : Exiting (crun cinit ops) x) :
@@ -345,19 +369,24 @@ theorem conc_exit_takes_whole_subtree (ops0 ops : List COp) (a : Nat)
   · exact e.1
   · rw [hne y h1] at h3; cases h3
 
-/-- a link that arrives while its target is on the way out: whatever the interleaving, if it is accepted
-the new child is Stopped at rest (clause 4/5 for any number of linkers and exits: the accepted link makes
-`c` a child of `p` in the state after it, and the general theorem applies from there) -/
-theorem conc_link_under_exiting (ops0 ops : List COp) (c p : Nat)
+/-- a link — the public `link` (`start = false`) or the one `spawn_linked`'s `start` makes (`start = true`)
+— that arrives while its target is on the way out: whatever the interleaving, if it is accepted the new
+child is Stopped at rest (clauses 4/5 for any number of linkers, spawns and exits: the accepted link makes
+`c` a child of `p` in the state after it, and the edge lemma applies from there) -/
+theorem conc_link_under_exiting (ops0 ops : List COp) (c p : Nat) (start : Bool)
     (hp : Exiting (crun cinit ops0) p)
-    (hacc : (link (crun cinit ops0).t c p).2 = true)
-    (hr : Rest (crun (crun cinit ops0) (.link c p :: ops)))
-    (hne : escRun (cstep (crun cinit ops0) (.link c p)) ops c = false) :
-    (crun (crun cinit ops0) (.link c p :: ops)).t.status c = .stopped := by
-  have h1 : CInv (cstep (crun cinit ops0) (.link c p)) := (conc_invariant ops0).step _
-  have hsup : (cstep (crun cinit ops0) (.link c p)).t.sup c = some p := (link_true hacc).2.2
-  have hch : child (cstep (crun cinit ops0) (.link c p)).t p c := (h1.inv.links c p).mp hsup
-  have hp' := exiting_step (conc_invariant ops0) (.link c p) p hp
+    (hacc : (if start then linkStart (crun cinit ops0).t c p else link (crun cinit ops0).t c p).2 = true)
+    (hr : Rest (crun (crun cinit ops0) ((if start then COp.linkStart c p else .link c p) :: ops)))
+    (hne : escRun (cstep (crun cinit ops0) (if start then .linkStart c p else .link c p)) ops c = false) :
+    (crun (crun cinit ops0) ((if start then COp.linkStart c p else .link c p) :: ops)).t.status c = .stopped := by
+  have h1 : CInv (cstep (crun cinit ops0) (if start then .linkStart c p else .link c p)) :=
+    (conc_invariant ops0).step _
+  have hsup : (cstep (crun cinit ops0) (if start then .linkStart c p else .link c p)).t.sup c = some p := by
+    cases start
+    · exact (link_true hacc).2.2
+    · exact (linkB_true hacc).2.2
+  have hch := (h1.inv.links c p).mp hsup
+  have hp' := exiting_step (conc_invariant ops0) (if start then .linkStart c p else .link c p) p hp
   rcases edge_run h1 ops hch with r | r | r
   · exfalso
     have := (rest_exiting (h1.run ops) hr (exiting_run h1 ops p hp')).2.2.1
@@ -495,6 +524,12 @@ example : let g := crun cinit ([.spawn, .spawn, .setStatus 0 .running, .setStatu
       .setStatus 1 .stopping, .begin 0 false] ++ List.replicate 9 (COp.xstep 0))
     g.pc 0 = .done ∧ g.t.killed 1 = false ∧ g.t.sup 1 = none ∧ g.t.status 1 = .stopping := by decide
 
+/-- round 4 (F9): a child lifted to `Draining` while its `pre_start` runs is refused by the public `link` but
+linked by `start`; a `Stopping` one is refused by both; a draining SUPERVISOR is refused by both -/
+example : let s := steps true init [.spawn, .spawn, .setStatus 0 .running, .setStatus 1 .draining]
+    (link s 1 0).2 = false ∧ (linkStart s 1 0).2 = true ∧ (linkStart s 1 0).1.sup 1 = some 0 ∧
+      (linkStart (setStatus s 1 .stopping) 1 0).2 = false ∧ (linkStart s 0 1).2 = false := by decide
+
 end C05
 
 #print axioms C05.invariant
@@ -539,3 +574,5 @@ end C05
 #print axioms C05.reader_sees_during_link
 #print axioms C05.reader_sees_during_take
 #print axioms C05.take_window_end
+#print axioms C05.start_link_gate
+#print axioms C05.start_link_no_gain
